@@ -377,3 +377,12 @@ Definition lstep (s : lstate) (e : levent) : lstate :=
                    ls_next_name := ls_next_name s; ls_next_trade := ls_next_trade s; ls_complete := ls_complete s |}
   end.
 Definition lrun (s : lstate) (es : list levent) : lstate := fold_left lstep es s.
+
+
+(* decidable form of "new references are new" (Proofs/LiveP.v wfe), evaluated by the correspondence check on every event of every real trace *)
+Definition wfe_b (s : lstate) (e : levent) : bool :=
+  match e with
+  | LPlace n _ _ _ _ _ _ | LPlaceRefused n _ _ _ _ _ => (match oget n (ls_orders s) with None => true | Some _ => false end) && (n <? ls_next_name s)
+  | LSnapshot rows => forallb (fun x => sr_name x <? ls_next_name s) rows
+  | _ => true
+  end.
